@@ -185,3 +185,74 @@ def ob_b1(ctx: Ctx) -> Outcome:
 
 
 ob_b1.wants_all_cores = True
+
+
+# ---- B2: the file a changes request produces is canonical (normalize accepts it and leaves it byte-identical) ----------------
+CANON_DOC = "===D===\nMETA:\n  TYPE::X\nA::1\nB:\n  C::2\n===END===\n"
+CANON_KEYS = {"plain": ["A", "NEW", "META.X", "X-Y", "X.Y", "é", "B"], "space": ["a b"], "digit": ["1", "9x"], "reserved": ["true", "null", "vs"], "var": ["$V"], "section": ["§1"], "assign": ["K::V"]}
+CANON_VALUES = {
+    "scalar": [None, "", "x y", 1, 1.5, True, "===END===", "a\nb", "// c", "true", "1", "a::b", "[x]", "§1", "$V", "a->b", "é", -0.0, "\\", '"', "\t"],
+    "list": [[], [1, [2, [3]]], [[]], [""], [None], ["a b", "true"]],
+    "map": [{"a": 1}, {"a": 1, "b": "x y"}],
+    "nested-map": [{"a": {"b": 1}}, {"a": [1, {"d": None}]}, [{"a": {"b": 1}}]],
+    "map-odd-key": [{"": 1}, {"a b": 1}, {"1": 1}, {"true": 1}],
+    "raw-cr": ["a\rb", ["a\rb"]],
+}
+
+
+def _canon_cases():
+    for kf, ks in CANON_KEYS.items():
+        for k in ks:
+            for vf, vs in CANON_VALUES.items():
+                for v in vs:
+                    yield kf, k, vf, v
+
+
+def _canon_one(i: int):
+    import asyncio
+    import os
+    import tempfile
+
+    from octave_mcp.mcp.write import WriteTool
+
+    kf, k, vf, v = list(_canon_cases())[i]
+    with tempfile.TemporaryDirectory(prefix="vf-c18-") as td:
+        p = os.path.join(td, "t.oct.md")
+        with open(p, "w", encoding="utf-8") as f:
+            f.write(CANON_DOC)
+        r = asyncio.run(WriteTool().execute(target_path=p, changes={k: v}))
+        if r.get("status") != "success":
+            return None, "refused"
+        b1 = open(p, "rb").read()
+        r2 = asyncio.run(WriteTool().execute(target_path=p))
+        b2 = open(p, "rb").read()
+        if r2.get("status") != "success":
+            return True, f"changes={{{k!r}: {v!r}}} succeeds and writes {b1!r}, which the next octave_write (normalize) refuses: {[e.get('code') for e in r2.get('errors', [])]}"
+        if b1 != b2:
+            return True, f"changes={{{k!r}: {v!r}}} writes {b1!r}; normalizing that file rewrites it to {b2!r}"
+    return False, "canonical"
+
+
+def replay_canon(i: int):
+    failed, text = _canon_one(i)
+    return bool(failed), text
+
+
+def ob_b2(ctx: Ctx) -> Outcome:
+    cases = list(_canon_cases())
+    wits, seen, ran = [], set(), 0
+    for i, (kf, k, vf, v) in enumerate(cases):
+        failed, text = _canon_one(i)
+        if failed is None:
+            continue
+        ran += 1
+        key = f"changes-canon|{kf}|{vf}"
+        if failed and key not in seen:
+            seen.add(key)
+            wits.append(Witness(what=text[:700], input={"key": k, "value": repr(v)}, key=key, replay={"runner": "props.C18_b:replay_canon", "args": {"i": i}}, confirmed=True))
+    extra = dict(bound=f"{len(cases)} requests: keys {CANON_KEYS} x values of the families {sorted(CANON_VALUES)} on a small document; accepted requests only; the written file is normalized once more and compared byte for byte", evaluations=len(cases), distinct_nontrivial=ran, rule="a case is one request; non-trivial: the tool reports success")
+    if ran == 0:
+        return Outcome.undecided("real tool on files", "every request was refused")
+    if wits:
+        return Outcome.refuted("real tool on files", wits, **extra)
+    return Outcome.ok("real tool on files", **extra)
